@@ -103,14 +103,15 @@ CLASSES = [
     ("deep::er", "class D { D(); };"),
     ("ns", "template<T = {double}, U = {ns::Keep2}> class Pr { Pr(T t); enum Mode { M1, M2 }; U second(const This::Mode& m) const; };"),
     ("ns", "class Mid { Mid(); double length() const; };"),
+    ("", "typedef ns::Bx<double> BxD;"),          # a typedef'd instantiation written OUTSIDE (before) the namespace of its template
 ]
 OTHERS = {"": "double gfun(int a); class Keep { Keep(); void f() const; };",
-          "ns": "class Keep2 { Keep2(); ns::Keep2 again() const; }; enum Color { Red }; void nfun(); class Ser { Ser(); void serialize() const; };",
+          "ns": "class Keep2 { Keep2(); ns::Keep2 again() const; }; enum Color { Red }; void nfun(); template<T> virtual class Bx { Bx(); T get() const; }; class Ser { Ser(); void serialize() const; };",
           "deep::er": "class Keep3 { Keep3(); };"}
 # a class with constructors only follows the slot of position 2 (so the chosen class sits between a serializable class and a method-less one)
 AFTER_NS = "class Bare { Bare(double d); static ns::Bare Create(); };"
-QUAL = {0: ["G"], 1: ["ns::A"], 2: ["ns::B"], 3: ["ns::Tm<double>", "ns::Tm<int>"], 4: ["deep::er::D"], 5: ["ns::Pr<double, ns::Keep2>"], 6: ["ns::Mid"]}
-MQUAL = {0: ["G"], 1: ["ns::A"], 2: ["ns::B"], 3: ["ns::TmDouble", "ns::TmInt"], 4: ["deep::er::D"], 5: ["ns::PrDoubleKeep2"], 6: ["ns::Mid"]}
+QUAL = {0: ["G"], 1: ["ns::A"], 2: ["ns::B"], 3: ["ns::Tm<double>", "ns::Tm<int>"], 4: ["deep::er::D"], 5: ["ns::Pr<double, ns::Keep2>"], 6: ["ns::Mid"], 7: ["ns::Bx<double>"]}
+MQUAL = {0: ["G"], 1: ["ns::A"], 2: ["ns::B"], 3: ["ns::TmDouble", "ns::TmInt"], 4: ["deep::er::D"], 5: ["ns::PrDoubleKeep2"], 6: ["ns::Mid"], 7: ["ns::BxD"]}
 NCLS = len(CLASSES)
 
 
@@ -207,6 +208,6 @@ def conds(tier):
         xh.Cond(M, "c15_entry_pybind", t(240, 1500), examples=["entry='G'", "entry='ns::A'", "entry='A'", "entry='ns::AB'", "entry=''"],
                 bounds="all ignore entries of length <= %d over {n,s,:,A,G,B}" % (6 if q else 7)),
         xh.Cond(M, "c15_entry_matlab", t(200, 900), kind="shape-bounded", examples=["e=1", "e=2", "e=3", "e=4"], bounds="%d ignore entries (exact, prefix, suffix, unqualified, ::-prefixed)" % len(ENTRIES)),
-        xh.Cond(M, "c15_locality", t(300, 900), kind="shape-bounded", path_timeout=90, examples=["which=0, pos=0, boost=0", "which=1, pos=1, boost=1", "which=3, pos=0, boost=0", "which=2, pos=1, boost=1", "which=5, pos=0, boost=0", "which=6, pos=1, boost=1"],
-                bounds="%d classes (global, namespaced with enum, virtual+serializable, template with 2 instantiations, nested namespace, 2-argument template with enum, plain class between a serializable and a method-less class) x position x serialization" % NCLS),
+        xh.Cond(M, "c15_locality", t(300, 900), kind="shape-bounded", path_timeout=90, examples=["which=0, pos=0, boost=0", "which=1, pos=1, boost=1", "which=3, pos=0, boost=0", "which=2, pos=1, boost=1", "which=5, pos=0, boost=0", "which=6, pos=1, boost=1", "which=7, pos=0, boost=0", "which=7, pos=1, boost=1"],
+                bounds="%d classes (global, namespaced with enum, virtual+serializable, template with 2 instantiations, nested namespace, 2-argument template with enum, plain class between a serializable and a method-less class, typedef'd instantiation written outside its template's namespace) x position x serialization" % NCLS),
     ]
